@@ -1393,16 +1393,7 @@ class Covout:
         self.sigma = uncertainty
         self.baseline = baseline
 
-        # Parse the interactions into a numeric representation
-        self._interactions = dict()
-        if self.imp_interaction and not self.imp_interaction.lower() in ["best", "synergistic"]:
-            for interaction in self.imp_interaction.split(","):
-                combo, val = interaction.split("=")
-                combo = frozenset([x.strip() for x in combo.split("+")])
-                for x in combo:
-                    assert x in self.progs, 'The impact interaction refers to a program "%s" which does not appear in the available programs' % (x)
-                self._interactions[combo] = float(val) - self.baseline
-
+        self._interactions = dict()  # Numeric representation of the interactions, populated by `update_outcomes()`
         self.update_outcomes()
 
     @property
@@ -1452,6 +1443,17 @@ class Covout:
         3. Pre-compute the outcomes associated with every possible combination of programs
 
         """
+
+        # Parse the interactions into a numeric representation - they are stored relative to the baseline, so this
+        # needs to be done here (rather than once at construction) for a change in baseline to be taken into account
+        self._interactions = dict()
+        if self.imp_interaction and not self.imp_interaction.lower() in ["best", "synergistic"]:
+            for interaction in self.imp_interaction.split(","):
+                combo, val = interaction.split("=")
+                combo = frozenset([x.strip() for x in combo.split("+")])
+                for x in combo:
+                    assert x in self.progs, 'The impact interaction refers to a program "%s" which does not appear in the available programs' % (x)
+                self._interactions[combo] = float(val) - self.baseline
 
         # First, sort the program dict by the magnitude of the outcome
         prog_tuple = [(k, v) for k, v in self.progs.items()]
